@@ -16,6 +16,9 @@ func sameClass(a, b *Violation) bool {
 }
 
 func Minimise(t *testing.T, plan *Plan) *Plan {
+	if plan.Con != nil {
+		return MinimiseCon(t, plan)
+	}
 	best := *plan
 	target := plan.Viol
 	budget := 3000
@@ -126,6 +129,114 @@ func Minimise(t *testing.T, plan *Plan) *Plan {
 		cand := append(append([]Op{}, best.Ops[:i]...), best.Ops[i+1:]...)
 		if v2, ops, ok := try(cand, best.Extra); ok {
 			best.Ops, best.Viol = ops, v2
+		}
+	}
+	return &best
+}
+
+func cloneCon(cp *ConPlan) *ConPlan {
+	n := *cp
+	n.Tasks = nil
+	for _, t := range cp.Tasks {
+		nt := t
+		nt.Ops = append([]ConOp{}, t.Ops...)
+		n.Tasks = append(n.Tasks, nt)
+	}
+	n.Setup = append([]Op{}, cp.Setup...)
+	n.Armed = append([]string{}, cp.Armed...)
+	return &n
+}
+
+// MinimiseCon shrinks a failing concurrent plan: whole tasks, then
+// operations of tasks, then the armed park points, then context switches
+// of the schedule; the schedule is replayed tolerantly.
+func MinimiseCon(t *testing.T, plan *Plan) *Plan {
+	best := *plan
+	best.FixedSched = true
+	target := plan.Viol
+	budget := 600
+	try := func(cp *ConPlan, sched []string) (*Violation, []string, bool) {
+		if budget <= 0 {
+			return nil, nil, false
+		}
+		budget--
+		cand := &Plan{Prop: plan.Prop, Profile: plan.Profile, Seed: plan.Seed, Con: cp, Sched: append([]string{}, sched...), FixedSched: true}
+		r := runOne(t, cand)
+		if sameClass(r.Viol, target) {
+			return r.Viol, cand.Sched, true
+		}
+		return nil, nil, false
+	}
+	v, sc, ok := try(best.Con, best.Sched)
+	if !ok {
+		best.Note = "recorded schedule did not reproduce the violation class in-process; unminimised"
+		return &best
+	}
+	best.Viol, best.Sched = v, sc
+	// serial execution of tasks?
+	{
+		cp := cloneCon(best.Con)
+		cp.Serial = true
+		if v, sc, ok := try(cp, []string{}); ok {
+			best.Con, best.Viol, best.Sched = cp, v, sc
+		}
+	}
+	// drop whole tasks
+	for i := len(best.Con.Tasks) - 1; i >= 0 && len(best.Con.Tasks) > 1; i-- {
+		cp := cloneCon(best.Con)
+		cp.Tasks = append(cp.Tasks[:i], cp.Tasks[i+1:]...)
+		if v, sc, ok := try(cp, best.Sched); ok {
+			best.Con, best.Viol, best.Sched = cp, v, sc
+		}
+	}
+	// drop operations (halves, then single)
+	for ti := range best.Con.Tasks {
+		for chunk := len(best.Con.Tasks[ti].Ops) / 2; chunk >= 1; chunk /= 2 {
+			for start := 0; start < len(best.Con.Tasks[ti].Ops); {
+				cp := cloneCon(best.Con)
+				ops := cp.Tasks[ti].Ops
+				end := start + chunk
+				if end > len(ops) {
+					end = len(ops)
+				}
+				cp.Tasks[ti].Ops = append(append([]ConOp{}, ops[:start]...), ops[end:]...)
+				if v, sc, ok := try(cp, best.Sched); ok {
+					best.Con, best.Viol, best.Sched = cp, v, sc
+				} else {
+					start += chunk
+				}
+			}
+		}
+	}
+	// drop setup operations (keep open and setcoll)
+	for i := len(best.Con.Setup) - 1; i >= 0; i-- {
+		k := best.Con.Setup[i].Kind
+		if k == "open" || k == "setcoll" {
+			continue
+		}
+		cp := cloneCon(best.Con)
+		cp.Setup = append(cp.Setup[:i], cp.Setup[i+1:]...)
+		if v, sc, ok := try(cp, best.Sched); ok {
+			best.Con, best.Viol, best.Sched = cp, v, sc
+		}
+	}
+	// disarm park points
+	for i := len(best.Con.Armed) - 1; i >= 0; i-- {
+		cp := cloneCon(best.Con)
+		cp.Armed = append(cp.Armed[:i], cp.Armed[i+1:]...)
+		if v, sc, ok := try(cp, best.Sched); ok {
+			best.Con, best.Viol, best.Sched = cp, v, sc
+		}
+	}
+	// fewer context switches: truncate the schedule (the rest runs in name order)
+	for n := len(best.Sched) / 2; n >= 1 && budget > 0; n /= 2 {
+		for len(best.Sched) > n {
+			if v, sc, ok := try(best.Con, best.Sched[:len(best.Sched)-n]); ok {
+				best.Viol, best.Sched = v, best.Sched[:len(best.Sched)-n]
+				_ = sc
+			} else {
+				break
+			}
 		}
 	}
 	return &best
